@@ -637,482 +637,6 @@ def c17_structural(report):
     report.floor("counter fields recognised by type", len(cf), 13)
     # positive control
     fc = facts.load("CONTROLS", "verif_controls")
-    hits = sum(1 for s in fc.statics if not classify_static(fc, s)[0])
-    send_sync = sum(1 for u in fc.unsafe_impls if u["trait"].endswith("::Send") or u["trait"].endswith("::Sync"))
-    report.floor("positive control: forbidden statics recognised in fixtures/controls", hits, 3)
-    report.floor("positive control: manual Send/Sync impls recognised", send_sync, 2)
-    # R18.4 (E5): compile-pass witnesses
-    ok, err = build_witness()
-    if ok:
-        report.ok("R18.4", "Send+Sync witnesses for 26 public state types compile", sample={"witness": "fixtures/witness"})
-    else:
-        report.violated("R18.4", "witness", "a public state type is no longer Send + Sync (or the hashers no longer Clone + Default): %s" % err)
-    return n_statics
-
-
-def build_witness(doc=False):
-    target = tempfile.mkdtemp(prefix="verif-witness-")
-    try:
-        shutil.copy("/repo/Cargo.lock", os.path.join(VERIF, "fixtures/witness/Cargo.lock"))
-        env = dict(os.environ)
-        env["CARGO_TARGET_DIR"] = target
-        env["CARGO_NET_OFFLINE"] = "true"
-        cmd = ["cargo", "+nightly", "test", "--doc", "--offline", "-q"] if doc else ["cargo", "check", "--offline", "-q"]
-        r = subprocess.run(cmd, cwd=os.path.join(VERIF, "fixtures/witness"), env=env, capture_output=True, text=True)
-        if r.returncode == 0:
-            return True, ""
-        lines = [l for l in (r.stderr + r.stdout).splitlines() if l.startswith("error") or "FAILED" in l or "the trait" in l]
-        return False, "; ".join(lines[:4])[:600]
-    finally:
-        shutil.rmtree(target, ignore_errors=True)
-
-
-# ------------------------------------------------------------------------------------------ C16
-
-ALIGNED_RX = re.compile(r"::(_mm_load_si128|_mm_store_si128|_mm256_load_si256|_mm256_store_si256|_mm_load_p[sd]|_mm_store_p[sd]|"
-                        r"_mm_stream_\w+|_mm256_stream_\w+|_mm_load_\w+|_mm_store_\w+|_mm_maskmoveu_si128)$")
-UNALIGNED_OK = re.compile(r"::(_mm_loadu_\w+|_mm_storeu_\w+|_mm256_loadu_\w+|_mm256_storeu_\w+|_mm_lddqu_si128|_mm_loadl_epi64|_mm_storel_epi64)$")
-PTR_INT_FNS = re.compile(r"::(align_offset|is_aligned|is_aligned_to|addr|expose_provenance|with_addr|map_addr|align_to|align_to_mut|"
-                         r"as_simd|as_simd_mut|offset_from|offset_from_unsigned|byte_offset_from|sub_ptr|as_ptr_range|as_mut_ptr_range)$")
-
-
-def align_of(f, t):
-    return f.types.get(t, {}).get("align", 1)
-
-
-def pointee(f, t):
-    d = f.types.get(t)
-    if d and d["kind"] in ("rawptr", "ref"):
-        return d["pointee"]
-    return None
-
-
-def def_map(body):
-    """local -> list of defining (kind, payload): assignments and call destinations."""
-    m = {}
-    for b in body["blocks"]:
-        for st in b["stmts"]:
-            if st["k"] == "assign" and not st["place"]["proj"]:
-                m.setdefault(st["place"]["local"], []).append(("rv", st["rv"]))
-        t = b["term"]
-        if t["k"] == "call" and not t["dest"]["proj"]:
-            m.setdefault(t["dest"]["local"], []).append(("call", t))
-    return m
-
-
-def origin_min_align(f, body, dm, local, depth=0):
-    """Smallest pointee alignment a raw pointer local is known to have along its def chain."""
-    t = body["locals"][local]
-    p = pointee(f, t)
-    best = align_of(f, p) if p else 1
-    if depth > 12:
-        return best
-    for kind, x in dm.get(local, []):
-        if kind == "rv":
-            if x["k"] == "use":
-                pl = x["op"].get("copy") or x["op"].get("move")
-                if pl and not pl["proj"]:
-                    best = min(best, origin_min_align(f, body, dm, pl["local"], depth + 1))
-            elif x["k"] == "cast":
-                pf = pointee(f, x["from"])
-                if pf is not None:
-                    best = min(best, align_of(f, pf) if f.types[pf]["kind"] not in ("slice", "str") else align_of(f, f.types[pf].get("elem", "u8")))
-                    pl = x["op"].get("copy") or x["op"].get("move")
-                    if pl and not pl["proj"]:
-                        best = min(best, origin_min_align(f, body, dm, pl["local"], depth + 1))
-        else:
-            ce = x.get("callee")
-            if ce and re.search(r"::(offset|add|sub|wrapping_add|wrapping_offset|cast|cast_mut|cast_const|as_ptr|as_mut_ptr)$", ce.get("resolved_def", ce["def"])):
-                a0 = x["args"][0]
-                pl = a0.get("copy") or a0.get("move")
-                if pl and not pl["proj"]:
-                    best = min(best, origin_min_align(f, body, dm, pl["local"], depth + 1))
-    return best
-
-
-def has_padding(f, t, seen=None):
-    d = f.types.get(t)
-    if d is None:
-        return True
-    k = d["kind"]
-    if k in ("int", "float", "char"):
-        return False
-    if k == "bool":
-        return False
-    if k == "array":
-        return has_padding(f, d["elem"])
-    if k == "struct" and d.get("repr_simd"):
-        return False
-    if k in ("struct", "tuple", "closure"):
-        fields = d["fields"] if k in ("tuple", "closure") else d["variants"][0]["fields"]
-        if k == "struct" and d.get("def") == "generic_array::GenericArray":
-            return has_padding(f, d["args"][0])
-        covered = 0
-        for fl in sorted(fields, key=lambda x: x.get("offset", 0)):
-            sz = f.types[fl["ty"]].get("size", 0)
-            if sz == 0:
-                continue
-            if fl.get("offset", 0) != covered:
-                return True
-            if has_padding(f, fl["ty"]):
-                return True
-            covered += sz
-        return covered != d.get("size", covered)
-    if k == "union":
-        for fl in d["variants"][0]["fields"]:
-            if f.types[fl["ty"]].get("size") != d["size"] or has_padding(f, fl["ty"]):
-                return True
-        return False
-    return True
-
-
-def audit_instance(f, key, inst, findings, counts):
-    body = inst["body"]
-    dm = None
-    reach = graph.reachable_blocks(body)
-    where = lambda t: "%s:%s" % ((t.get("span") or {}).get("file", "?").replace("/repo/", ""), (t.get("span") or {}).get("line", "?"))
-    for i in sorted(reach):
-        b = body["blocks"][i]
-        t = b["term"]
-        if t["k"] == "call" and "callee" in t:
-            d = t["callee"].get("resolved_def", t["callee"]["def"])
-            if ALIGNED_RX.search(d) and not UNALIGNED_OK.search(d):
-                findings.append(("R16.1", "%s:%s" % (key, d.rsplit("::", 1)[1]),
-                                 "%s calls the alignment-requiring %s (%s); byte-slice data has no alignment guarantee"
-                                 % (short(key), d.rsplit("::", 1)[1], where(t))))
-            elif UNALIGNED_OK.search(d) or d in ("core::ptr::read_unaligned", "core::ptr::write_unaligned"):
-                counts["unaligned_ops"] = counts.get("unaligned_ops", 0) + 1
-            elif d in ("core::ptr::read", "core::ptr::write", "core::ptr::read_volatile", "core::ptr::write_volatile"):
-                if dm is None:
-                    dm = def_map(body)
-                a0 = t["args"][0]
-                pl = a0.get("copy") or a0.get("move")
-                tt = t["callee"]["generic_args"][0].get("ty")
-                if pl and not pl["proj"] and tt and origin_min_align(f, body, dm, pl["local"]) < align_of(f, tt):
-                    findings.append(("R16.1", "%s:%s" % (key, d), "%s: aligned %s through a pointer derived from less aligned data (%s)"
-                                     % (short(key), d, where(t))))
-            if PTR_INT_FNS.search(d):
-                findings.append(("R16.4", "%s:%s" % (key, d.rsplit("::", 1)[1]),
-                                 "%s inspects a pointer's address via %s (%s): results could depend on buffer alignment" % (short(key), d, where(t))))
-        for st in b["stmts"]:
-            if st["k"] != "assign":
-                continue
-            rv = st["rv"]
-            if rv["k"] == "cast":
-                ck = rv["cast"]
-                kf, kt = f.types[rv["from"]]["kind"], f.types[rv["to"]]["kind"]
-                if ck == "transmute" and kf in ("rawptr", "ref") and kt == "int" and _only_feeds_pointer_check(body, st["place"]):
-                    continue          # debug-build null/alignment check of a raw pointer dereference
-                if ck in ("ptr_expose", "ptr_from_exposed") or (ck == "transmute" and ((kf in ("rawptr", "ref") and kt == "int") or (kf == "int" and kt in ("rawptr", "ref")))):
-                    findings.append(("R16.4", "%s:ptr-int-cast#line%d" % (key, 0), "%s converts between pointer and integer (%s line %s)"
-                                     % (short(key), ck, st.get("line"))))
-                elif ck == "transmute" and kf not in ("rawptr", "ref", "fnptr", "fndef"):
-                    counts["transmutes"] = counts.get("transmutes", 0) + 1
-                    sf, stt = f.types[rv["from"]].get("size"), f.types[rv["to"]].get("size")
-                    if sf != stt or has_padding(f, rv["from"]) or has_padding(f, rv["to"]):
-                        findings.append(("R16.3", "%s:transmute %s->%s" % (key, rv["from"], rv["to"]),
-                                         "%s transmutes between %s and %s which differ in size or contain padding" % (short(key), rv["from"], rv["to"])))
-            # raw pointer dereferences (reads and writes)
-            for pl in _places(st):
-                if dm is None:
-                    dm = def_map(body)
-                _check_deref(f, key, body, dm, pl, findings, counts, st.get("line"))
-
-
-def _only_feeds_pointer_check(body, place):
-    """True if the local is used (transitively) only to compute the condition of a
-    misaligned/null pointer-dereference Assert inserted by the dev profile."""
-    if place["proj"]:
-        return False
-    work = [place["local"]]
-    seen = set()
-    reached_assert = False
-    while work:
-        l = work.pop()
-        if l in seen:
-            continue
-        seen.add(l)
-        for b in body["blocks"]:
-            for st in b["stmts"]:
-                if st["k"] != "assign":
-                    continue
-                uses = []
-                _collect_locals(st["rv"], uses)
-                if l in uses:
-                    if st["place"]["proj"]:
-                        return False
-                    if st["rv"]["k"] not in ("binop", "use", "unop", "cast"):
-                        return False
-                    work.append(st["place"]["local"])
-            t = b["term"]
-            uses = []
-            if t["k"] == "assert":
-                _collect_locals(t["cond"], uses)
-                if l in uses:
-                    if t["msg"].startswith("misaligned") or t["msg"].startswith("null_deref"):
-                        reached_assert = True
-                    else:
-                        return False
-            elif t["k"] in ("call", "switch"):
-                _collect_locals(t.get("args", []), uses)
-                _collect_locals(t.get("discr", {}), uses)
-                if l in uses:
-                    return False
-    return reached_assert
-
-
-def _collect_locals(x, out):
-    if isinstance(x, dict):
-        if "local" in x and "proj" in x:
-            out.append(x["local"])
-            for e in x["proj"]:
-                if e.get("k") == "index":
-                    out.append(e["local"])
-        for v in x.values():
-            _collect_locals(v, out)
-    elif isinstance(x, list):
-        for v in x:
-            _collect_locals(v, out)
-
-
-def _places(st):
-    out = [st["place"]]
-
-    def walk(x):
-        if isinstance(x, dict):
-            if "local" in x and "proj" in x and isinstance(x["proj"], list):
-                out.append(x)
-            for v in x.values():
-                walk(v)
-        elif isinstance(x, list):
-            for v in x:
-                walk(v)
-    walk(st["rv"])
-    return out
-
-
-def _check_deref(f, key, body, dm, pl, findings, counts, line):
-    if not pl["proj"] or pl["proj"][0]["k"] != "deref":
-        return
-    lt = body["locals"][pl["local"]]
-    d = f.types.get(lt)
-    if not d or d["kind"] != "rawptr":
-        return
-    counts["raw_derefs"] = counts.get("raw_derefs", 0) + 1
-    need = align_of(f, d["pointee"])
-    have = origin_min_align(f, body, dm, pl["local"])
-    if have < need:
-        findings.append(("R16.1", "%s:deref *%s" % (key, d["pointee"]),
-                         "%s dereferences a *%s (alignment %d) obtained from data aligned to %d (line %s): aligned access to byte data"
-                         % (short(key), d["pointee"], need, have, line)))
-
-
-def c16_structural(report, cfgs, addr_hits=None):
-    counts = {}
-    n_inst = 0
-    seen = set()
-    for cfg in cfgs:
-        for f in all_fact_files(cfg):
-            for k, inst in workspace_instances(f):
-                if (cfg, k) in seen:
-                    continue
-                seen.add((cfg, k))
-                n_inst += 1
-                findings = []
-                audit_instance(f, k, inst, findings, counts)
-                for rule, ikey, what in findings:
-                    if rule == "R16.4" and addr_hits is not None and ("align_to" in ikey or "align_offset" in ikey):
-                        addr_hits.append((cfg, k, f.defs[inst["def"]]["krate"], ikey, what))
-                    else:
-                        report.violated(rule, "%s@%s" % (ikey, cfg), what)
-            # unions declared in workspace crates
-            for tk, d in f.types.items():
-                if d.get("kind") == "union" and d.get("krate") in WORKSPACE_CRATES:
-                    if ("union", cfg, tk) in seen:
-                        continue
-                    seen.add(("union", cfg, tk))
-                    if has_padding(f, tk):
-                        report.violated("R16.3", "union %s@%s" % (facts.abbrev(tk), cfg),
-                                        "union %s has views of different size or with padding bytes: reinterpretation reads uninitialised or out-of-range bytes" % facts.abbrev(tk))
-                    else:
-                        report.ok("R16.3", "union %s@%s" % (facts.abbrev(tk), cfg),
-                                  sample={"union": facts.abbrev(tk), "size": d["size"], "views": [x["name"] for x in d["variants"][0]["fields"]]})
-    report.extra["instances_audited"] = n_inst
-    report.extra["unsafe_operation_counts"] = counts
-    for name in ("unaligned_ops", "raw_derefs", "transmutes"):
-        report.ok("R16.1", "audited %d %s" % (counts.get(name, 0), name))
-    # positive control
-    fc = facts.load("CONTROLS", "verif_controls")
-    ctl = []
-    cc = {}
-    for k, inst in workspace_instances(fc):
-        audit_instance(fc, k, inst, ctl, cc)
-    kinds = {r for r, _, _ in ctl}
-    report.floor("positive control: aligned-load / typed-deref recognised", sum(1 for r, _, _ in ctl if r == "R16.1"), 2)
-    report.floor("positive control: pointer-to-integer cast recognised", sum(1 for r, _, _ in ctl if r == "R16.4"), 1)
-    pad = [tk for tk, d in fc.types.items() if d.get("kind") == "union" and d.get("krate") == "verif_controls" and has_padding(fc, tk)]
-    report.floor("positive control: padded union recognised", len(pad), 1)
-    return n_inst
-
-
-# ------------------------------------------------------------------------------------------ C17
-
-COUNTER_FIELDS = {"block_counter", "datalen", "t", "len"}
-HASH_CRATES = {"blake_hash", "groestl_aesni", "jh_x86_64", "skein_hash", "verif_controls"}
-
-
-INT_TYPES = {"u8", "u16", "u32", "u64", "u128", "usize"}
-
-
-def is_counter_field(d, i):
-    """A length / block / bit counter of a hasher state: an integer (or pair-of-words) field of a
-    struct that sits next to the block buffer, or the tweak pair of a Skein State.  Found by type,
-    so renaming the private field does not matter; the historical names are accepted as well."""
-    fields = d["variants"][0]["fields"]
-    fl = fields[i]
-    if fl["name"] in COUNTER_FIELDS:
-        return True
-    intlike = fl["ty"] in INT_TYPES or (fl["ty"].startswith("(") and all(x.strip() in INT_TYPES for x in fl["ty"][1:-1].split(",")))
-    if not intlike:
-        return False
-    if any(x["ty"].startswith("block_buffer::BlockBuffer<") for x in fields):
-        return True
-    return "::State<" in (d.get("def", "") + "<") or d.get("def", "").endswith("::State")
-
-
-def counter_fields(f):
-    """[(type key, field name, field type)] for all hasher-state structs of the hash crates."""
-    out = []
-    for k, d in f.types.items():
-        if d.get("kind") == "struct" and d.get("krate") in HASH_CRATES and d.get("variants"):
-            for i, fl in enumerate(d["variants"][0]["fields"]):
-                if is_counter_field(d, i) and (any(x["ty"].startswith("block_buffer::BlockBuffer<") for x in d["variants"][0]["fields"])
-                                               or "State" in d.get("def", "")):
-                    out.append((k, fl["name"], fl["ty"], d))
-    return out
-
-
-def narrowing_of_lengths(f, key, inst):
-    """Narrowing integer casts applied to values that derive (def-use inside the body) from a slice
-    length or from a counter field of a hasher state.  -> list of descriptions"""
-    body = inst["body"]
-    tainted = set()
-    out = []
-
-    def op_local(op):
-        pl = op.get("copy") or op.get("move")
-        return pl["local"] if pl is not None else None
-
-    def place_is_counter(pl):
-        # field projection named like a counter on a workspace struct
-        t = body["locals"][pl["local"]]
-        cur = t
-        hit = False
-        for e in pl["proj"]:
-            d = f.types.get(cur)
-            if d is None:
-                return hit
-            if e["k"] == "deref":
-                cur = d.get("pointee", cur)
-            elif e["k"] == "field":
-                if d["kind"] == "struct" and d.get("krate") in HASH_CRATES:
-                    if is_counter_field(d, e["i"]):
-                        hit = True
-                cur = e["ty"]
-            else:
-                return hit
-        return hit
-
-    def checked_pair(pl):
-        # `.0` of the (value, overflowed) pair of a checked arithmetic operation
-        return (len(pl["proj"]) == 1 and pl["proj"][0]["k"] == "field" and pl["proj"][0]["i"] == 0
-                and body["locals"][pl["local"]].startswith("(") and body["locals"][pl["local"]].endswith(", bool)"))
-
-    changed = True
-    rounds = 0
-    while changed and rounds < 8:
-        changed = False
-        rounds += 1
-        for b in body["blocks"]:
-            for st in b["stmts"]:
-                if st["k"] != "assign" or st["place"]["proj"]:
-                    continue
-                dst = st["place"]["local"]
-                rv = st["rv"]
-                srcs = []
-                if rv["k"] in ("use", "cast"):
-                    srcs = [rv["op"]]
-                elif rv["k"] == "binop":
-                    srcs = [rv["a"], rv["b"]]
-                elif rv["k"] == "unop":
-                    srcs = [rv["a"]]
-                t_in = False
-                for op in srcs:
-                    pl = op.get("copy") or op.get("move")
-                    if pl is None:
-                        continue
-                    if (pl["local"] in tainted and (not pl["proj"] or checked_pair(pl))) or place_is_counter(pl):
-                        t_in = True
-                if t_in and dst not in tainted:
-                    tainted.add(dst)
-                    changed = True
-            t = b["term"]
-            if t["k"] == "call" and "callee" in t and not t["dest"]["proj"]:
-                d = t["callee"].get("resolved_def", t["callee"]["def"])
-                if d in ("core::slice::<impl [T]>::len",) or d.endswith("BlockBuffer::<BlockSize>::position") and False:
-                    if t["dest"]["local"] not in tainted:
-                        tainted.add(t["dest"]["local"])
-                        changed = True
-    for b in body["blocks"]:
-        for st in b["stmts"]:
-            if st["k"] == "assign" and st["rv"]["k"] == "cast" and st["rv"]["cast"] == "int_to_int":
-                rv = st["rv"]
-                tf, tt = f.types[rv["from"]], f.types[rv["to"]]
-                if tf["kind"] == "int" and tt["kind"] == "int" and tt["bits"] < tf["bits"]:
-                    pl = rv["op"].get("copy") or rv["op"].get("move")
-                    if pl is not None and ((pl["local"] in tainted and (not pl["proj"] or checked_pair(pl))) or place_is_counter(pl)):
-                        out.append("%s -> %s at line %s" % (rv["from"], rv["to"], st.get("line")))
-    return out
-
-
-def c17_structural(report):
-    f = facts.load("K1")
-    n = 0
-    for k, inst in workspace_instances(f):
-        if f.defs[inst["def"]]["krate"] not in HASH_CRATES:
-            continue
-        n += 1
-        for what in narrowing_of_lengths(f, k, inst):
-            report.violated("R17.2", "%s:%s" % (k, what.split(" at ")[0]),
-                            "%s narrows a length / counter value (%s): counts beyond 2^32 would be lost" % (short(k), what))
-    report.ok("R17.2", "no narrowing cast on slice lengths or counter fields in %d hash-crate instances" % n)
-    report.extra["hash_instances_scanned"] = n
-    # counter fields are 64-bit (or pairs of words for BLAKE)
-    want = {"blake_hash::Blake224": ("t", "(u32, u32)"), "blake_hash::Blake256": ("t", "(u32, u32)"),
-            "blake_hash::Blake384": ("t", "(u64, u64)"), "blake_hash::Blake512": ("t", "(u64, u64)"),
-            "groestl_aesni::Groestl256": ("block_counter", "u64"), "groestl_aesni::Groestl512": ("block_counter", "u64"),
-            "jh_x86_64::Jh224": ("datalen", "usize"), "jh_x86_64::Jh256": ("datalen", "usize"),
-            "jh_x86_64::Jh384": ("datalen", "usize"), "jh_x86_64::Jh512": ("datalen", "usize")}
-    for t, (fld, ty) in want.items():
-        d = f.types.get(t)
-        got = None
-        if d:
-            for fl in d["variants"][0]["fields"]:
-                if fl["name"] == fld:
-                    got = fl["ty"]
-        if got == ty and (ty != "usize" or f.types["usize"]["bits"] == 64):
-            report.ok("R17.3", "%s.%s : %s" % (t, fld, ty))
-        else:
-            report.violated("R17.3", "%s.%s" % (t, fld), "counter field %s.%s has type %s, expected %s (64-bit exact counting)" % (t, fld, got, ty))
-    for k, d in f.types.items():
-        if k.startswith("skein_hash::State<"):
-            tt = [fl["ty"] for fl in d["variants"][0]["fields"] if fl["name"] == "t"]
-            if tt == ["(u64, u64)"]:
-                report.ok("R17.3", "%s.t : (u64, u64)" % facts.abbrev(k)[:60])
-            else:
-                report.violated("R17.3", facts.abbrev(k)[:60], "Skein tweak words are %s, expected (u64, u64)" % tt)
-    # positive control
-    fc = facts.load("CONTROLS", "verif_controls")
     hits = 0
     for k, inst in workspace_instances(fc):
         hits += len(narrowing_of_lengths(fc, k, inst))
